@@ -1863,7 +1863,11 @@ class System(object, metaclass=SystemMetaclass):
         self._during_coloring = False
         self._first_call_to_linearize = save_first_call
 
-        self._update_subjac_sparsity(self.subjac_sparsity_iter(sparsity=sparsity))
+        # the columns of the computed sparsity are only those of the wrt variables being colored,
+        # so the column offsets of the subjacs must be the ones of that reduced jacobian.
+        self._update_subjac_sparsity(
+            self.subjac_sparsity_iter(sparsity=sparsity,
+                                      wrt_matches=self._coloring_info.wrt_matches))
 
         return sparsity, sp_info
 
